@@ -271,7 +271,7 @@ class C10(Spec):
                 if gs['nul'] != 1:
                     return ('%s:not-terminated' % name, 'after operation %d (%s): string %d (size %d) is not followed by NUL%s' % (
                         i, op, k, gs['size'], ' (str() is not readable)' if gs['nul'] < 0 else ''))
-                if gs['size'] != len(rs) or gs['chars'] != rs[:64]:
+                if gs['size'] != len(rs) or gs['chars'] != rs[:256]:
                     return ('%s:wrong-contents' % name, 'after operation %d (%s): string %d is %s (size %d), reference %s' % (
                         i, op, k, gs['chars'], gs['size'], rs))
                 if gs['cap'] < gs['size']:
@@ -293,7 +293,7 @@ class C10(Spec):
         if tier == 'quick':
             cfgs = [[1, 3, 110], [4, 3, 110]]
         else:
-            cfgs = [[1, 4, 1500], [4, 4, 1500]]
+            cfgs = [[1, 4, 350], [4, 4, 350]]
         cases, st = [], dict(states=0, transitions=0, closed=True)
         for c in cfgs:
             cs, s = self.bfs(c)
